@@ -8,6 +8,7 @@ import (
 	"strings"
 	"time"
 
+	"github.com/git-lfs/git-lfs/v3/git"
 	"github.com/git-lfs/git-lfs/v3/tq"
 
 	"verif/sim"
@@ -46,6 +47,8 @@ type QCfg struct {
 	DryRun        bool        `json:"dry_run,omitempty"`
 	ExpiresInS    int         `json:"expires_in_s,omitempty"`
 	PartState     map[int]int `json:"part_state,omitempty"`
+	PreFinal      map[int]int `json:"pre_final,omitempty"` // garbage already at the final path
+	RefName       string      `json:"ref_name,omitempty"`
 }
 
 // Delivery is one Transfer received on a Watch() channel.
@@ -96,6 +99,8 @@ type QProfile struct {
 	ShapeFaults  bool // batch-shape faults (C06)
 	TimeFaults   bool // 429 / expiry emphasis (C15)
 	PartStates   bool // pre-existing .part files (C02)
+	Corrupt      bool // single-field corruption of batch responses
+	RefNames     bool // give the queue a remote ref (C18)
 	MaxObjs      int
 	MaxAdds      int
 	ShapeExclude map[string]bool
@@ -174,6 +179,25 @@ func GenQCfg(t *sim.Tape, p QProfile) QCfg {
 		c.Starve = []string{"watcher", "collect", ".w", "worker", "errc", "handler", "main", "batch"}[t.Choose(8, "starve-class")]
 	}
 	c.LatencyMaxMs = []int{0, 5, 300, 4000}[t.Choose(4, "latency")]
+	if p.RefNames {
+		c.RefName = []string{"", "refs/heads/main", "refs/heads/feature/with space", "refs/heads/qu\"ote\\back", "refs/heads/ünï-çødé", "refs/tags/v1.0"}[t.Choose(6, "ref-name")]
+	}
+	if p.PartStates {
+		c.PartState = map[int]int{}
+		c.PreFinal = map[int]int{}
+		for i := 0; i < n; i++ {
+			if st := t.Choose(9, "part-state"); st > 0 && st <= 7 {
+				c.PartState[i] = st
+			}
+			if t.Bool(1, 8, "pre-final-garbage") {
+				c.PreFinal[i] = 1 + t.Choose(2, "pre-final-kind")
+			}
+		}
+		if c.Watchers == 0 {
+			c.Watchers = 1
+			c.StallMs = []int{0}
+		}
+	}
 	if p.NoFaults {
 		return c
 	}
@@ -187,6 +211,9 @@ func GenQCfg(t *sim.Tape, p QProfile) QCfg {
 	f.BatchBadJSON = pickRate(t, "batchbadjson", 1, 12)
 	f.BatchHashAlgo = pickRate(t, "batchhashalgo", 1, 12)
 	f.BatchWrongTransfer = pickRate(t, "batchwrongtransfer", 1, 12)
+	if p.Corrupt {
+		f.BatchCorrupt = pickRate(t, "batchcorrupt", 1, 2)
+	}
 	c.DropBefore = pickRate(t, "dropbefore", 1, 8)
 	c.DropAfter = pickRate(t, "dropafter", 1, 8)
 	// object shapes
@@ -198,6 +225,7 @@ func GenQCfg(t *sim.Tape, p QProfile) QCfg {
 		f.ObjOmit = pickRate(t, "objomit", 1, 4)
 		f.ObjTwice = pickRate(t, "objtwice", 1, 4)
 		f.ObjUnknown = pickRate(t, "objunknown", 1, 4)
+		f.ObjForeign = pickRate(t, "objforeign", 1, 4)
 	}
 	for k := range p.ShapeExclude {
 		switch k {
@@ -318,6 +346,13 @@ func RunQueue(rc *RunCtx, cfg QCfg) *QRun {
 				panic(sim.HarnessError{Msg: err.Error()})
 			}
 		}
+		if k := cfg.PreFinal[i]; k > 0 && !cfg.Upload {
+			g := []byte("garbage-of-wrong-size")
+			if k == 2 && len(o.Data) > 1 {
+				g = append([]byte(nil), o.Data[:len(o.Data)-1]...)
+			}
+			os.WriteFile(p, g, 0644)
+		}
 		if b, err := os.ReadFile(p); err == nil {
 			qr.Pre[o.Oid] = b
 		}
@@ -341,6 +376,9 @@ func RunQueue(rc *RunCtx, cfg QCfg) *QRun {
 		opts := []tq.Option{tq.WithBatchSize(cfg.BatchSize), tq.DryRun(cfg.DryRun)}
 		if cfg.BufferDepth > 0 {
 			opts = append(opts, tq.WithBufferDepth(cfg.BufferDepth))
+		}
+		if cfg.RefName != "" {
+			opts = append(opts, tq.RemoteRef(git.ParseRef(cfg.RefName, "")))
 		}
 		q := tq.NewTransferQueue(dir, cl.Manifest, "origin", opts...)
 		s.NameInst(q, "q0")
